@@ -1,0 +1,24 @@
+//go:build verif
+
+package provenance
+
+// Contracts checked by /verif (govc). Comment-only file: it adds no code.
+
+// ---- C17: a chart archive verifies iff its provenance file is validly signed by a key of the
+// ring over the signed text and that text lists, under the archive's base name, the archive's digest
+
+//@ ghost func signedOK(s *Signatory, sigpath string) bool = hasSigBlock(sigpath) && pgpValid(box(s.KeyRing), content(sigBlockOf(sigpath).Bytes), sigBlockOf(sigpath).ArmoredSignature.Body)
+//@ ghost func listedSum(sigpath string, chartpath string) bool = parsesSums(content(sigBlockOf(sigpath).Plaintext)) && has(sumsOf(content(sigBlockOf(sigpath).Plaintext)).Files, fbase(chartpath)) && sumsOf(content(sigBlockOf(sigpath).Plaintext)).Files[fbase(chartpath)] == "sha256:" + fileDigest(chartpath)
+
+//@ func (*Signatory).verifySignature
+//@   props C17
+//@   requires s != nil && block != nil && block.ArmoredSignature != nil
+//@   ensures [checks-signed-bytes-against-ring] (err == nil) == pgpValid(box(s.KeyRing), content(block.Bytes), block.ArmoredSignature.Body)
+
+//@ func (*Signatory).Verify
+//@   props C17
+//@   requires s != nil && (hasSigBlock(sigpath) ==> sigBlockOf(sigpath).ArmoredSignature != nil)
+//@   ensures [accepts-only-signed] err == nil ==> signedOK(s, sigpath)
+//@   ensures [accepts-only-matching-digest] err == nil ==> listedSum(sigpath, chartpath)
+//@   ensures [reports] err == nil ==> result != nil && result.FileHash == "sha256:" + fileDigest(chartpath) && result.FileName == fbase(chartpath)
+//@   ensures [result-always] result != nil
